@@ -4,6 +4,7 @@ import (
 	"fmt"
 	"io"
 	"sort"
+	"strings"
 
 	"github.com/Tnze/go-mc/nbt"
 	"github.com/Tnze/go-mc/nbt/dynbt"
@@ -74,8 +75,34 @@ type typedDoc struct {
 	Dyn  *dynbt.Value           `nbt:"dyn"`
 	Snbt nbt.StringifiedMessage `nbt:"snbt"`
 	P    *int32                 `nbt:"p"`
-	Tail int32                  `nbt:"tail"`
+	U16  uint16                 `nbt:"u16"`
+	U32  uint32                 `nbt:"u32"`
+	U64  uint64                 `nbt:"u64"`
+	F64  float64                `nbt:"f64"`
+	NB   namedBytes             `nbt:"nb"`
+	FI8  [2]int8                `nbt:"fi8"`
+	FBo  [2]bool                `nbt:"fbo"`
+	UIA  []uint32               `nbt:"uia"`
+	FULA [2]uint64              `nbt:"fula"`
+	Txt  textVal                `nbt:"txt"`
+	Fold int32                  `nbt:"CaseFold"`
+	Any2 any                    `nbt:"any2"`
+	*Emb
+	Tail int32 `nbt:"tail"`
 }
+
+type namedBytes []uint8
+
+// Emb is embedded by pointer: the decoder allocates it on first use.
+type Emb struct {
+	EmbI int32 `nbt:"embi"`
+}
+
+// textVal is a TextUnmarshaler / TextMarshaler.
+type textVal struct{ s string }
+
+func (t *textVal) UnmarshalText(b []byte) error { t.s = strings.ToUpper(string(b)); return nil }
+func (t textVal) MarshalText() ([]byte, error)  { return []byte(strings.ToLower(t.s)), nil }
 
 type skipAll struct {
 	A any `nbt:"a"`
@@ -88,6 +115,24 @@ func decodeOp[T any](target string, network bool) *ReadOp {
 	}
 	return &ReadOp{Name: fmt.Sprintf("nbt.Decode[%s,%s]", target, format), Run: func(r io.Reader) (any, int64, error) {
 		var v T
+		d := nbt.NewDecoder(r)
+		d.NetworkFormat(network)
+		name, err := d.Decode(&v)
+		return []any{name, v}, -1, err
+	}}
+}
+
+// prefilledOp decodes into a typedDoc whose interface, pointer, map and slice fields already hold
+// values (the decoder loads through them instead of allocating).
+func prefilledOp(network bool) *ReadOp {
+	format := "file"
+	if network {
+		format = "network"
+	}
+	return &ReadOp{Name: fmt.Sprintf("nbt.Decode[typed-struct-prefilled,%s]", format), Run: func(r io.Reader) (any, int64, error) {
+		x := int32(-1)
+		v := typedDoc{Any: &inner{X: -1, S: "old"}, Any2: inner{X: -2, S: "by value"}, P: &x, M: map[string]int32{"old": 1}, BA: make([]byte, 1, 64), I8A: make([]int8, 1, 64),
+			IA: make([]int32, 1, 64), LS: make([]string, 1, 8), Emb: &Emb{EmbI: -1}}
 		d := nbt.NewDecoder(r)
 		d.NetworkFormat(network)
 		name, err := d.Decode(&v)
@@ -153,10 +198,14 @@ func handDocs() []doc {
 		kv("dyn", nComp(kv("d", nList(refnbt.LongArray, nLA(1, 2))), kv("e", nFloat()))),
 		kv("snbt", nComp(kv("q", nStr("it's \"q\"")), kv("n", nList(refnbt.Byte, nByte(1), nByte(2))))),
 		kv("p", nInt(77)),
+		kv("u16", nShort(-2)), kv("u32", nInt(-3)), kv("u64", nLong(-4)), kv("f64", nFloat()), kv("nb", nBA(4, 5, 6)),
+		kv("fi8", nBA(-7, 8)), kv("fbo", nBA(0, 1)), kv("uia", nIA(-1, 9)), kv("fula", nLA(-1, 10)), kv("txt", nStr("shout")),
+		kv("casefold", nInt(11)), kv("embi", nInt(12)), kv("any2", nComp(kv("s", nStr("v")), kv("other", nShort(1)), kv("x", nInt(13)))),
 		kv("tail", nInt(0x0a0b0c0d)),
 	)
 	add("all-fields", all)
 	add("empty-compound", nComp())
+	add("any-as-inner", nComp(kv("any", sampleOf(refnbt.Compound)), kv("m", nComp(kv("old", nInt(2)), kv("new", nInt(3)))), kv("tail", nInt(6))))
 	add("tail-only", nComp(kv("tail", nInt(0x0a0b0c0d))))
 	// one known field each, followed by the tail field (a partial read of the field shifts the tail)
 	for _, f := range all.Fields {
@@ -229,6 +278,7 @@ func nbtReadOps(genNodes int) (ops []*ReadOp, nGen int) {
 		with := func(o *ReadOp, ins []Input) *ReadOp { o.Inputs = ins; return o }
 		ops = append(ops,
 			with(decodeOp[typedDoc]("typed-struct", network), handIn),
+			with(prefilledOp(network), handIn),
 			with(decodeOp[skipAll]("struct-skipping", network), both),
 			with(decodeOp[any]("any", network), both),
 			with(decodeOp[map[string]any]("map", network), handIn),
